@@ -9,6 +9,7 @@ import (
 
 	_ "perun.network/go-perun/backend/sim"
 	_ "perun.network/go-perun/client"
+	"verif/harness/internal/c05"
 	"verif/harness/internal/c15"
 	"verif/harness/internal/c17"
 	"verif/harness/internal/c18"
@@ -19,6 +20,7 @@ import (
 )
 
 var drivers = map[string]func(seed int64, tier, out string){
+	"C05": c05.Run,
 	"C15": c15.Run,
 	"C17": c17.Run,
 	"C18": c18.Run,
